@@ -25,12 +25,44 @@ structure SSpecies where
   initAmount : Bool      -- the value attribute is initialAmount (else initialConcentration)
 deriving Repr, Inhabited, DecidableEq
 
-/-- the written document with its compartments -/
+/-- the written document with its compartments, and what `write` adds that carries no number: the modifier species of
+    every reaction (document order), the id of the model, the ids of the unit definitions -/
 structure SDocC where
   doc : SDoc
   compartments : List (String × Rat)     -- id, size (document order)
   species : List SSpecies
+  modifiers : List (String × List String) := []   -- reaction id, species ids of its modifiers
+  modelId : String := ""
+  unitIds : List String := []
 deriving Repr, Inhabited
+
+/-- the further options of `write` -/
+structure WriteOpts where
+  modelName : String := "model"        -- `_default_model_name`
+  date : String := ""                  -- `datetime.now(UTC).date()` as `%Y-%m-%d` (run time)
+  unitIds : List String := ["per_second"]   -- keys of `_default_units` / of the `units` option
+deriving Repr, Inhabited
+
+/-- `Reaction.get_modifiers`: the arguments of the rate function that are variables of the model and not in the stoichiometry -/
+def modifiersOf (m : PyModel) (rx : PyRxn) : List String :=
+  rx.fn.args.filter fun k => (m.vars.map (·.1)).contains k && !(rx.stoich.map (·.1)).contains k
+
+def mapE {α β} (f : α → Except XErr β) : List α → Except XErr (List β)
+  | [] => .ok []
+  | a :: as => do
+      let b ← f a
+      let bs ← mapE f as
+      pure (b :: bs)
+
+/-- the `createModifier` loop of `_create_sbml_reactions`, for every reaction -/
+def exportModifiers (m : PyModel) : Except XErr (List (String × List String)) :=
+  mapE (fun rx => do
+    let rid ← escapeId rx.name prefixRxn
+    let ms ← mapE (fun k => escapeId k prefixRefSpecies) (modifiersOf m rx)
+    pure (rid, ms)) m.rxns
+
+/-- `_create_sbml_model`: id (and name) of the model -/
+def modelId (o : WriteOpts) : Except XErr String := escapeId (o.modelName ++ "_" ++ o.date) "MODEL"
 
 /-- `_default_compartments(compartments, taken=set(model.ids))`; `none` = the option was not given.
     (Python: `compartments` is a dict, so the ids of an explicit list are pairwise distinct.) -/
@@ -64,6 +96,40 @@ def speciesAttrs (comp : Option String) (species : List (String × Option Rat)) 
   | none => []
   | some c => species.map fun kv => ⟨kv.1, c, speciesHosu, speciesInitAmount⟩
 
+/-! ### inside math a component is referred to by the id it is declared with (`_sbml_ids`, `_sbmlify_fn(fn, args, ids)`) -/
+
+/-- `ids.get(n, n)`: the declared id of a component of the model, any other name as it is -/
+def idOf (m : PyModel) (n : String) : String :=
+  let pre : Option String :=
+    if (m.params.map (·.1)).contains n then some prefixParam
+    else if (m.vars.map (·.1)).contains n then some prefixVar
+    else if (m.derived.map (·.1)).contains n then some prefixRule
+    else if (m.rxns.map (·.name)).contains n then some prefixRxn
+    else none
+  match pre with
+  | some p => (match escapeId n p with | .ok s => s | .error _ => n)
+  | none => n
+
+def PyFn.mapArgs (g : String → String) (f : PyFn) : PyFn := { f with args := f.args.map g }
+
+def PyInit.mapArgs (g : String → String) : PyInit → PyInit
+  | .val q => .val q
+  | .ia f => .ia (f.mapArgs g)
+
+def PyCoef.mapArgs (g : String → String) : PyCoef → PyCoef
+  | .num q => .num q
+  | .computed f => .computed (f.mapArgs g)
+
+/-- the model as the exporter sees its functions: every model argument replaced by the component's id -/
+def PyModel.escArgs (m : PyModel) : PyModel :=
+  if mathUsesIds then
+    let g := idOf m
+    { params := m.params.map fun kv => (kv.1, kv.2.mapArgs g)
+      vars := m.vars.map fun kv => (kv.1, kv.2.mapArgs g)
+      derived := m.derived.map fun kv => (kv.1, kv.2.mapArgs g)
+      rxns := m.rxns.map fun r => { r with fn := r.fn.mapArgs g, stoich := r.stoich.map fun kv => (kv.1, kv.2.mapArgs g) } }
+  else m
+
 /-- `exportModel` with any initial set of names the species references have to avoid -/
 def exportModelFrom (taken0 : List String) (m : PyModel) : Except XErr SDoc := do
   let d ← foldE exportParam SDoc.empty m.params
@@ -85,12 +151,20 @@ def exportModelC (m : PyModel) (cs : List (String × Rat)) : Except XErr SDocC :
   let comp ← speciesCompartment cs m.vars
   let d ← foldE exportVar d m.vars
   let (_, d) ← foldE exportReaction (refTaken m cs, d) m.rxns
-  pure ⟨d, cs, speciesAttrs comp d.species⟩
+  pure { doc := d, compartments := cs, species := speciesAttrs comp d.species }
 
 /-- `write(model, file, compartments=…)` up to the serialisation -/
 def writeModel (m : PyModel) (cs : Option (List (String × Rat))) : Except XErr SDocC := do
   let cs ← chooseCompartments m.names cs
-  exportModelC m cs
+  exportModelC m.escArgs cs
+
+/-- `write` with all its options: the model id is written first, the modifiers with their reactions; neither changes a
+    component (`writeModelFull_doc`) -/
+def writeModelFull (m : PyModel) (cs : Option (List (String × Rat))) (o : WriteOpts) : Except XErr SDocC := do
+  let mid ← modelId o
+  let dc ← writeModel m cs
+  let mods ← exportModifiers m
+  pure { dc with modifiers := mods, modelId := mid, unitIds := o.unitIds }
 
 /-! ### SBML reading of a species in a compartment of constant size (L3v2 §4.6.5, §4.11.7) -/
 
